@@ -65,8 +65,8 @@ impl Cfg {
     pub fn with(&self, transport: &'static str) -> Cfg {
         let mut c = self.clone();
         c.transport = transport;
-        // datagrams travel over udp only for shadowsocks over plain tcp+udp
-        c.udp = self.udp && transport == "tcp";
+        // shadowsocks datagrams travel over udp next to plain tcp; vmess / trojan datagrams travel inside the transport
+        c.udp = self.udp && (transport == "tcp" || self.protocol != "shadowsocks");
         c
     }
 
@@ -77,12 +77,17 @@ impl Cfg {
     /// start a world; returns its name
     pub fn start(&self, s: &mut Session, link: bool, threads: usize) -> Option<String> {
         let w = s.fresh("w");
-        let mode = match (self.transport, self.udp) {
+        let inside = self.protocol != "shadowsocks";
+        let mode = match (self.transport, self.udp && !inside) {
             ("quic", _) => "tcp_and_quic",
             (_, true) => "tcp_and_udp",
             _ => "tcp",
         };
         let mut op = format!("e2e.start {} protocol={} cipher={} spw={} cpw={} users={} mode={} link={} threads={}", w, self.protocol, self.cipher, self.spw, self.cpw, self.users, mode, link as u8, threads);
+        if self.udp && inside {
+            // only the client needs a udp socket
+            op.push_str(" cmode=tcp_and_udp");
+        }
         match self.transport {
             "ws" => op.push_str(" ws=1"),
             "tls" => op.push_str(" tls=ssl"),
